@@ -1,9 +1,30 @@
 """C06 - see DESIGN.md 5/C06.  spec/WampSession.tla (TLC: all histories up to the bound) + seeded random histories of a real
-ApplicationSession on Twisted Deferreds and asyncio Futures validated by spec/WampSessionTrace.tla (profile "c06")."""
+ApplicationSession on Twisted Deferreds and asyncio Futures validated by spec/WampSessionTrace.tla (profile "c06"), plus one
+session life (joined, call pending, then transport lost cleanly / uncleanly / GOODBYE) on each of the four real transports and
+three serializers (WampSessionTrace.TLifeReal)."""
+from harness import common, tlc
 from harness.props import sess_common
+
+
+def real_lives(res):
+    outs = common.run_drivers_parallel([("invreal_drv", [], common.driver_env(fw=f, seed=res.seed), dict(mode="life")) for f in ("tx", "aio")])
+    traces, meta = [], []
+    for o in outs:
+        res.count(o["cases"])
+        for t in o["traces"]:
+            traces.append(t)
+            meta.append(o["fw"])
+            res.distinct_key([o["fw"], "life", t[0]["kind"], t[0]["ser"], t[0]["how"]])
+    v = tlc.validate_traces("WampSessionTrace", "WampSessionTrace.cfg", traces, shards=2)
+    res.traces += v["n"]
+    for idx, l in v["rejected"][:20]:
+        res.classify("c06-life-%s-%d" % (meta[idx], idx), dict(fw=meta[idx], event=traces[idx][0], spec="WampSessionTrace.TLifeReal"))
+    if len(traces) < 30:
+        raise common.MachineryError("too few real-transport session lives")
 
 
 def run(res):
     thorough = res.tier == "thorough"
     sess_common.run_profile(res, "c06", 2500 if thorough else 700, 6 if thorough else 3, "c06",
                             "MC_WampSession_deep.cfg" if thorough else "MC_WampSession.cfg")
+    real_lives(res)
